@@ -100,6 +100,7 @@ def run_heartbeat_file(case):
             aborted = False
         w = W()
         w.tmp = tmp
+        w.timeout = T / 2.0          # the wait bound the arbiter gives a worker at spawn
         arb = A.Arbiter.__new__(A.Arbiter)
         arb.timeout = T
         arb.WORKERS = {4242: w}
@@ -173,14 +174,16 @@ def run_idle_period(case):
     orig_select = w.poller.select
     idle_from = []
     calls = [0]
+    ended = []
 
     def idle_step(blocks_for):
         if not idle_from:
             idle_from.append(sim.clock)
         sim.clock += blocks_for + 0.01
         calls[0] += 1
-        if sim.clock - idle_from[0] > 2 * T + 3 or calls[0] > 20000:
+        if (sim.clock - idle_from[0] > 2 * T + 3 or calls[0] > 20000) and w.alive:
             w.alive = False
+            ended.append(sim.clock)
 
     def select(timeout=None):
         if sim.ei < len(sim.events):
@@ -210,7 +213,8 @@ def run_idle_period(case):
     finally:
         tsim.G.time, tsim.G.futures = saved
     t0 = idle_from[0] if idle_from else sim.clock
-    marks = [b for b in beats if b <= t0][-1:] + [b for b in beats if b > t0] + [sim.clock]
+    end = ended[0] if ended else sim.clock          # (what run() does after its loop is over is not part of the idle period)
+    marks = [b for b in beats if b <= t0][-1:] + [b for b in beats if t0 < b <= end] + [end]
     gaps = [b - a for a, b in zip(marks, marks[1:])]
     period = max(gaps) if gaps else 0
     vio = []
